@@ -35,6 +35,7 @@ fn main() {
 		"subscription_id_reuse" => probes::subscription_id_reuse(),
 		"subscription_string_ids" => probes::subscription_string_ids(),
 		"batch_subscribe_entry" => probes::batch_subscribe_entry(),
+		"accept_then_immediate_unsubscribe" => probes::accept_then_immediate_unsubscribe(),
 		"client_fragmented_reply_with_timers" => probes::client_fragmented_reply_with_timers(),
 		"generated_subscription_names" => probes::generated_subscription_names(),
 		"client_concurrent_batches_and_calls" => probes::client_concurrent_batches_and_calls(),
